@@ -68,7 +68,7 @@ def gen_histories(p, cands, maxcmd, maxbps, num, seed, mix, maxbk=3):
     d, cfg = p.tla_data(cands, maxcmd, maxbps, maxbk=maxbk)
     cfgg = cfg + "SPECIFICATION Spec\nINVARIANT EmitHist\n"
     r = sesslib.tlc_in(d, "MC", cfgg, "MC_G.cfg", workers=1, simulate=min(1600, max(400, num * 40)), depth=maxcmd + 1,
-                       seed_arg=seed, timeout=1500, heap="3g")
+                       seed_arg=seed, timeout=2700, heap="3g")
     if r.error and not vlib.printed(r.out, "HIST"):
         raise ToolError(f"history generation failed: {r.error}\n{r.out[-2000:]}")
     hs = vlib.printed(r.out, "HIST")
